@@ -179,6 +179,12 @@ func short(s string) string {
 // ---------------------------------------------------------------------------------------------
 // system run
 
+type preResult struct {
+	seqs []int
+	tss  []int64
+	err  string
+}
+
 type sysRun struct {
 	h        history
 	srv      *lrsrv.Srv
@@ -199,6 +205,8 @@ type sysRun struct {
 	nq       int
 	lossSeen map[string]bool
 	flushIn  *flushCase // set in section flushrace: the reproduction of a failing query is the whole flush case
+	pre      *preResult // result of a query the caller ran itself
+	schedFinding string // set by the parked-schedule replays: the finding a loss with IMPL = MODEL belongs to
 	hullRace bool // the writer of the last batch is parked before onWriteCIndex (deterministic replay of F46)
 }
 
@@ -571,7 +579,16 @@ func (r *sysRun) doQuery(o op, specOnly bool) {
 		res.Note("system: unbounded read failed: %s", ferr)
 		return
 	}
-	got, gts, qerr := r.runQuery(q, page, o.RPC)
+	var got []int
+	var gts []int64
+	var qerr string
+	if r.pre != nil {
+		// the query was executed by the caller (it had to run in its own goroutine inside a parked schedule)
+		got, gts, qerr = r.pre.seqs, r.pre.tss, r.pre.err
+		r.pre = nil
+	} else {
+		got, gts, qerr = r.runQuery(q, page, o.RPC)
+	}
 	r.nq++
 	// SPEC: the unbounded read filtered to the range
 	var spec []int
@@ -670,7 +687,9 @@ func (r *sysRun) doQuery(o op, specOnly bool) {
 			return
 		}
 		finding := ""
-		if kind == "hidden-event" && eq && r.hullRace {
+		if kind == "hidden-event" && eq && r.schedFinding != "" {
+			finding = r.schedFinding
+		} else if kind == "hidden-event" && eq && r.hullRace {
 			// deterministic schedule; the model (journal updated, chunk index not) shows the same loss
 			finding = "F46"
 		} else if kind == "hidden-event" && eq {
